@@ -160,7 +160,7 @@ def random_step(rng, pool):
         side = rng.choice('lr')
         tbl = L if side == 'l' else R
         call = {'api': 'profile', 'ltable': tbl,
-                'profile_attrs': rng.choice([None, [side + 'attr'], [side + 'id', side + 'attr']])}
+                'profile_attrs': rng.choice([None, [side + 'attr'], [side + 'id', side + 'attr'], '__columns__'])}
         if call['profile_attrs'] is None and rng.random() < 0.6:
             del call['profile_attrs']          # omit the argument
         step['tables'] = {'ltable': (side, li if side == 'l' else ri)}
